@@ -6,6 +6,18 @@ import subprocess
 
 VERIF = os.path.dirname(os.path.dirname(os.path.abspath(__file__)))
 LEVELS = {
+    "C10": ("state-machine model of the ForSys stores with symbolic result tokens; theorem for every history: frame t reports the "
+            "token of the last matrix (re)build preceding its last solve, independent of everything else; stores keyed by frame; "
+            "after every operation of random histories the implementation's stores are compared bitwise with fresh objects", "4/C10",
+            "Coq invariant over unbounded histories + differential comparison with fresh objects"),
+    "C12": ("theorems for every pool / radius schedule / initial guess: no two vertices share a target, pairings honoured, targets are "
+            "end points, every end point is mapped, a chosen target was free, forward-then-backward returns the start; find_best "
+            "(incl. the stale-radius second pass) tied to the code by exact correspondence; true-successor clause by oracle", "4/C12",
+            "Coq theorems on a Gallina model + exact differential correspondence"),
+    "C13": ("theorems: forward/backward finite-difference formula over the real time stamps, zero for untracked vertices, placement "
+            "of velocity components in the junction's own rows (all else zero), static mode zero; exact rational correspondence on "
+            "dyadic series; mean-speed normalisation by oracle", "4/C13",
+            "Coq theorems on a Gallina model + exact differential correspondence"),
     "C16": ("theorems: used interfaces = internal interfaces minus those flagged at both ends (order kept), exclusion iff both ends "
             "flagged, nothing flagged => nothing excluded, re-insertion puts -1 exactly at the excluded positions and the restricted "
             "solution in order elsewhere; flags recomputed from all pairs of directions and restricted-system solution compared by the oracle",
